@@ -4,7 +4,7 @@ import time
 from pv import common, gen
 
 RULE = ("constraint graphs: random / trees / cliques / cycles / disconnected unions / isolated variables / n-ary "
-        "constraints (cliques in the primal graph) with 1-40 variables densely sampled, plus chains, stars, grids and "
+        "constraints (cliques in the primal graph) with 1-40 variables densely sampled, a fifth of them with external variables first or last in some constraint scopes, plus chains, stars, grids and "
         "caterpillars up to 1500 (quick) / 4000 (thorough) variables; oracle (harness graph algorithms): one node per "
         "variable, parent/children and pseudo_parent/pseudo_children mutually consistent, parent links acyclic with one "
         "root per connected component, every constraint-sharing pair is ancestor/descendant and directly linked by a "
@@ -30,6 +30,20 @@ def build_dcop_structure(case):
 
     dom = Domain("d", "t", [0, 1])
     vs = {v["name"]: Variable(v["name"], dom) for v in case["variables"]}
+    if case.get("external"):
+        # external (sensor) variables take part in some constraints but are not decision variables: they get no node
+        from pydcop.dcop.objects import ExternalVariable
+
+        ext = {n: ExternalVariable(n, dom, 0) for n in case["external"]}
+        cons = {}
+        for c in case["constraints"]:
+            dims = [vs[n] for n in c["scope"]]
+            for where, en in c.get("ext_scope", []):
+                dims = [ext[en]] + dims if where == "first" else dims + [ext[en]]
+            cons[c["name"]] = NAryFunctionRelation(lambda **kw: 0, dims, name=c["name"], f_kwargs=True)
+        dcop = DCOP("c17", "min", "", {"d": dom}, dict(vs), cons, {})
+        dcop.external_variables = ext
+        return dcop
     dcop = DCOP("c17", "min")
     for v in vs.values():
         dcop.add_variable(v)
@@ -197,7 +211,15 @@ def make_small(rng):
             scopes.append([nm])
     if scopes and rng.random() < 0.2:
         scopes.append(list(rng.choice(scopes)))
-    return light_case(names, scopes), shape
+    case = light_case(names, scopes)
+    if scopes and rng.random() < 0.2:
+        # one or two external variables (named before / after the decision variables) in some constraint scopes
+        case["external"] = rng.sample(["a_ext", "zz_ext", "e0"], rng.randint(1, 2))
+        for c in case["constraints"]:
+            if rng.random() < 0.4:
+                c["ext_scope"] = [(rng.choice(["first", "last"]), rng.choice(case["external"]))]
+        shape += "+external"
+    return case, shape
 
 
 def make_big(rng, size):
